@@ -12,7 +12,7 @@ import (
 
 var (
 	intVals   = []int64{0, 1, -1, 2, 3, 7, 62, 63, 64, math.MaxInt64, math.MinInt64}
-	floatVals = []float64{0, 1.5, -2, 3, 1e308, 0.1}
+	floatVals = []float64{0, 1.5, -2, 3, 1e308, 0.1, math.Inf(1), math.Inf(-1), math.NaN()}
 	boolVals  = []bool{false, true}
 	strVals   = []string{"", "a", "ab", "é"}
 
@@ -51,9 +51,25 @@ type opTable struct {
 
 var opTables = []opTable{
 	{"int", hs.TInt, intOps, len(intVals), func(i int) hs.Expr { return hs.I(intVals[i]) }},
-	{"float", hs.TFloat, floatOps, len(floatVals), func(i int) hs.Expr { return hs.F(floatVals[i]) }},
+	{"float", hs.TFloat, floatOps, len(floatVals), floatOperand},
 	{"bool", hs.TBool, boolOps, len(boolVals), func(i int) hs.Expr { return hs.B(boolVals[i]) }},
 	{"str", hs.TStr, strOps, len(strVals), func(i int) hs.Expr { return hs.S(strVals[i]) }},
+}
+
+// floatOperand: the special values have no literal; they are computed (IEEE-754: 10.0 ** 400.0
+// overflows to +Inf, Inf - Inf is NaN).
+func floatOperand(i int) hs.Expr {
+	v := floatVals[i]
+	inf := func() hs.Expr { return hs.Bin("**", hs.F(10), hs.F(400)) }
+	switch {
+	case math.IsNaN(v):
+		return &hs.Group{X: hs.Bin("-", inf(), inf())}
+	case math.IsInf(v, 1):
+		return &hs.Group{X: inf()}
+	case math.IsInf(v, -1):
+		return &hs.Group{X: hs.Bin("-", hs.F(0), inf())}
+	}
+	return hs.F(v)
 }
 
 func opTableCount(t opTable) int { return len(t.ops) * t.n * t.n * nForms }
